@@ -395,6 +395,198 @@ def _subgroups_fn(tree):
     return mkeys
 
 
+# --------------------------------------------------------------------------------------------------
+# sites that used to be tied by the correspondence only (tie audit)
+
+
+def _add_arguments_forwarding(tree):
+    """parsing.py ArgumentParser._add_arguments: does the DataclassWrapper get the callable (partial / replace) and the default
+    instance that _resolve_subgroups chose?"""
+    fn = find_def(tree, "_add_arguments", cls="ArgumentParser")
+    kwonly = [a.arg for a in fn.args.kwonlyargs]
+    if [a.arg for a in fn.args.args] != ["self", "dataclass_type", "name"] or \
+            kwonly != ["prefix", "dataclass_fn", "default", "dataclass_wrapper_class", "parent"]:
+        raise Unrecognised("_add_arguments signature")
+    body = clean(fn.body)
+    texts = [unparse(x) for x in body]
+    calls = [i for i, x in enumerate(body) if isinstance(x, ast.Assign) and unparse(x.targets[0]) == "new_wrapper"
+             and isinstance(x.value, ast.Call) and unparse(x.value.func) == "dataclass_wrapper_class"]
+    if len(calls) != 1:
+        raise Unrecognised("_add_arguments: construction of the wrapper")
+    i = calls[0]
+    if i == 0 or texts[i - 1] != "dataclass_fn = dataclass_fn or dataclass_type":
+        raise Unrecognised("_add_arguments: `dataclass_fn = dataclass_fn or dataclass_type` right before the wrapper is built")
+    # nothing before the construction may touch `dataclass_fn`; `default` only in the known instance-as-type block
+    for t in texts[: i - 1]:
+        if "dataclass_fn =" in t.replace("dataclass_fn is", "") and not t.startswith("assert"):
+            raise Unrecognised("_add_arguments: dataclass_fn reassigned before the wrapper is built")
+        if "default =" in t and t != ("if not isinstance(dataclass_type, type):\n    if default is None:\n        default = dataclass_type\n"
+                                      "    dataclass_type = type(dataclass_type)"):
+            raise Unrecognised(f"_add_arguments: default reassigned before the wrapper is built: {t[:80]}")
+    call = body[i].value
+    if call.args:
+        raise Unrecognised("_add_arguments: positional arguments to the wrapper class")
+    kws = {k.arg: unparse(k.value) for k in call.keywords}
+    if None in kws or set(kws) - {"dataclass", "name", "prefix", "default", "parent", "dataclass_fn"}:
+        raise Unrecognised(f"_add_arguments: wrapper keywords {sorted(map(str, kws))}")
+    for k, want in (("dataclass", "dataclass_type"), ("name", "name"), ("parent", "parent")):
+        if kws.get(k) != want:
+            raise Unrecognised(f"_add_arguments: wrapper keyword {k}={kws.get(k)}")
+
+    def forwarded(k, other):
+        v = kws.get(k)
+        if v == k:
+            return True
+        if v in other:
+            return False
+        raise Unrecognised(f"_add_arguments: wrapper keyword {k}={v}")
+    fwd_fn = forwarded("dataclass_fn", (None, "dataclass_type", "None"))
+    fwd_default = forwarded("default", (None, "None"))
+    if texts[-1] != "return new_wrapper":
+        raise Unrecognised("_add_arguments: return")
+    return fwd_fn, fwd_default
+
+
+def _instantiation_order(tree):
+    """parsing.py ArgumentParser._instantiate_dataclasses: deepest wrappers first, each value stored in its parent's
+    constructor arguments, the wrapper's dataclass_fn as the constructor"""
+    fn = find_def(tree, "_instantiate_dataclasses", cls="ArgumentParser")
+    body = clean(fn.body)
+    srt = [x for x in body if isinstance(x, (ast.Assign, ast.AnnAssign)) and "sorted_dc_wrappers" in unparse(x.target if isinstance(x, ast.AnnAssign) else x.targets[0])]
+    if len(srt) != 1 or not isinstance(srt[0].value, ast.Call) or unparse(srt[0].value.func) != "sorted":
+        raise Unrecognised("_instantiate_dataclasses: sorted_dc_wrappers")
+    call = srt[0].value
+    kws = {k.arg: k.value for k in call.keywords}
+    if [unparse(a) for a in call.args] != ["wrappers"] or set(kws) - {"key", "reverse"} or "key" not in kws \
+            or unparse(kws["key"]) != "lambda w: w.nesting_level":
+        raise Unrecognised(f"_instantiate_dataclasses: sort key {unparse(call)}")
+    bottom_up = const(kws["reverse"], bool) if "reverse" in kws else False
+    loops = [x for x in body if isinstance(x, ast.For)]
+    if len(loops) != 1 or unparse(loops[0].iter) != "sorted_dc_wrappers" or unparse(loops[0].target) != "dc_wrapper":
+        raise Unrecognised("_instantiate_dataclasses: loop over sorted_dc_wrappers")
+    inner = [x for x in clean(loops[0].body) if isinstance(x, ast.For)]
+    if len(inner) != 1 or unparse(inner[0].iter) != "dc_wrapper.destinations":
+        raise Unrecognised("_instantiate_dataclasses: loop over the destinations")
+    ib = clean(inner[0].body)
+    it = [unparse(x) for x in ib]
+    for want in ("constructor = dc_wrapper.dataclass_fn", "constructor_args = constructor_arguments.pop(destination)"):
+        if want not in it:
+            raise Unrecognised(f"_instantiate_dataclasses: `{want}`")
+    if not any("value_for_dataclass_field = _create_dataclass_instance(dc_wrapper, constructor, constructor_args)" in t for t in it):
+        raise Unrecognised("_instantiate_dataclasses: the instance is created by _create_dataclass_instance(dc_wrapper, constructor, constructor_args)")
+    place = [x for x in ib if isinstance(x, ast.If) and "dc_wrapper.parent is not None" in unparse(x)]
+    if len(place) != 1:
+        raise Unrecognised("_instantiate_dataclasses: where the value goes")
+    arms, _ = if_chain(place[0])
+    parent_arm = [b for t, b in arms if unparse(t) == "dc_wrapper.parent is not None"]
+    if len(parent_arm) != 1 or [unparse(x) for x in parent_arm[0]] != [
+            "parent_key, attr = utils.split_dest(destination)", "constructor_arguments[parent_key][attr] = value_for_dataclass_field"]:
+        raise Unrecognised("_instantiate_dataclasses: a child's value is stored in the parent's constructor arguments")
+    return bottom_up
+
+
+def _main_parser_registers_subgroups(tree):
+    """dataclass_wrapper.py DataclassWrapper.add_arguments: resolved subgroup fields are added to the main parser too"""
+    fn = find_def(tree, "add_arguments", cls="DataclassWrapper")
+    loops = [x for x in clean(fn.body) if isinstance(x, ast.For) and unparse(x.iter) == "self.fields"]
+    if len(loops) != 1 or unparse(loops[0].target) != "wrapped_field":
+        raise Unrecognised("DataclassWrapper.add_arguments: loop over self.fields")
+    lb = clean(loops[0].body)
+    texts = [unparse(x) for x in lb]
+    want_head = ["assert wrapped_field.field.metadata.get('cmd', True)",
+                 "if wrapped_field.is_subparser:\n    wrapped_field.add_subparsers(parser)\n    continue",
+                 "arg_options = wrapped_field.arg_options",
+                 "if argparse.SUPPRESS in self.defaults:\n    arg_options['default'] = argparse.SUPPRESS"]
+    if texts[:4] != want_head or texts[-1] != "_ = group.add_argument(*wrapped_field.option_strings, **arg_options)":
+        raise Unrecognised("DataclassWrapper.add_arguments: loop body")
+    rest = lb[4:-1]
+    if len(rest) == 0:
+        return True
+    if len(rest) == 1 and isinstance(rest[0], ast.If) and unparse(rest[0].test) == "wrapped_field.is_subgroup" and not clean(rest[0].orelse):
+        inner = clean(rest[0].body)
+        if inner == []:
+            return True           # only a log line: the subgroup option is added like any other
+        if [type(x) for x in inner] == [ast.Continue]:
+            return False
+    raise Unrecognised("DataclassWrapper.add_arguments: treatment of subgroup fields")
+
+
+def _choice_options(tree):
+    """field_wrapper.py FieldWrapper.get_arg_options: a choice (subgroup) field gets type=str, choices=<keys>, required, default"""
+    fn = find_def(tree, "get_arg_options", cls="FieldWrapper")
+    body = clean(fn.body)
+    texts = [unparse(x) for x in body]
+    if "_arg_options['default'] = self.default" not in texts:
+        raise Unrecognised("get_arg_options: default")
+    pos = [t for t in texts if t.startswith("if not self.field.metadata.get('positional'):")]
+    if len(pos) != 1 or "_arg_options['required'] = self.required" not in pos[0] or "_arg_options['dest'] = self.dest" not in pos[0]:
+        raise Unrecognised("get_arg_options: required / dest")
+    chains = [x for x in body if isinstance(x, ast.If) and unparse(x.test) == "self.is_choice"]
+    if len(chains) != 1:
+        raise Unrecognised("get_arg_options: the choice arm")
+    arm = [unparse(x) for x in clean(chains[0].body)]
+    allowed = {"choices = self.choices", "assert choices", "item_type = str", "_arg_options['type'] = item_type",
+               "_arg_options['choices'] = choices",
+               "if utils.is_list(self.type):\n    _arg_options['nargs'] = argparse.ZERO_OR_MORE", "_arg_options.pop('metavar', None)"}
+    if set(arm) - allowed or "item_type = str" not in arm or "_arg_options['type'] = item_type" not in arm or "choices = self.choices" not in arm:
+        raise Unrecognised(f"get_arg_options: choice arm {arm}")
+    validates = "_arg_options['choices'] = choices" in arm
+    # nothing after the chain may drop the choices again
+    after = texts[body.index(chains[0]) + 1:]
+    if any("choices" in t for t in after):
+        raise Unrecognised("get_arg_options: choices touched after the choice arm")
+    props = {n.name: n for n in find_class(tree, "FieldWrapper").body if isinstance(n, ast.FunctionDef)}
+    ch = unparse(props["choices"]) if "choices" in props else ""
+    if "if 'choices' in self.field.metadata:\n        return list(self.field.metadata['choices'])" not in ch:
+        raise Unrecognised("FieldWrapper.choices: the field's metadata['choices']")
+    ic = unparse(props["is_choice"]) if "is_choice" in props else ""
+    if "return self.choices is not None" not in ic:
+        raise Unrecognised("FieldWrapper.is_choice")
+    return validates
+
+
+def _setup_sees_argv(tree):
+    """parsing.py: parse_known_args hands the command line (and the namespace) to _preprocessing, which hands them to
+    _resolve_subgroups before any argument is added"""
+    pk = find_def(tree, "parse_known_args", cls="ArgumentParser")
+    calls = [x for x in ast.walk(pk) if isinstance(x, ast.Call) and unparse(x.func) == "self._preprocessing"]
+    if len(calls) != 1 or calls[0].args:
+        raise Unrecognised("parse_known_args: call of _preprocessing")
+    k1 = {k.arg: unparse(k.value) for k in calls[0].keywords}
+    pp = find_def(tree, "_preprocessing", cls="ArgumentParser")
+    if [a.arg for a in pp.args.args] != ["self", "args", "namespace"]:
+        raise Unrecognised("_preprocessing signature")
+    body = clean(pp.body)
+    texts = [unparse(x) for x in body]
+    rs = [i for i, t in enumerate(texts) if "self._resolve_subgroups(" in t]
+    add = [i for i, t in enumerate(texts) if "wrapped_dataclass.add_arguments(parser=self)" in t]
+    if len(rs) != 1 or len(add) != 1 or not rs[0] < add[0]:
+        raise Unrecognised("_preprocessing: subgroups are resolved before the arguments are added")
+    node = body[rs[0]]
+    if not (isinstance(node, ast.Assign) and isinstance(node.value, ast.Call) and not node.value.args):
+        raise Unrecognised("_preprocessing: call of _resolve_subgroups")
+    k2 = {k.arg: unparse(k.value) for k in node.value.keywords}
+    if k2.get("wrappers") != "wrapped_dataclasses" or set(k2) != {"wrappers", "args", "namespace"}:
+        raise Unrecognised(f"_preprocessing: _resolve_subgroups keywords {k2}")
+    if k1.get("namespace") != "namespace" or k2.get("namespace") != "namespace" or set(k1) != {"args", "namespace"}:
+        raise Unrecognised("the namespace of the call is not the one the subgroup pre-pass fills")
+    between = [t for t in texts[: rs[0]] if t.startswith("args =")]
+    if between not in ([], ["args = list(args)"]):
+        raise Unrecognised(f"_preprocessing: args rewritten before the subgroups are resolved: {between}")
+
+    def sees(v):
+        if v == "args":
+            return True
+        if v in ("[]", "()", "list()"):
+            return False
+        raise Unrecognised(f"command line handed on as {v}")
+    s1, s2 = sees(k1.get("args")), sees(k2.get("args"))
+    main = [x for x in ast.walk(pk) if isinstance(x, ast.Call) and unparse(x.func) == "super().parse_known_args"]
+    if not main or unparse(main[0]) != "super().parse_known_args(args, namespace)":
+        raise Unrecognised("parse_known_args: the main parse")
+    return s1 and s2
+
+
 def emit(repo: str) -> str:
     parsing = parse(repo, "simple_parsing/parsing.py")
     dw = parse(repo, "simple_parsing/wrappers/dataclass_wrapper.py")
@@ -406,28 +598,43 @@ def emit(repo: str) -> str:
     partial_kw, push_instance = _dataclass_wrapper(dw)
     preset_first = _field_wrapper(fw)
     mkeys = _subgroups_fn(sg)
-    args = "sub_abbrev_gen main_abbrev_gen partial_kw_gen inst_default_gen preset_wins_gen loop_breaks_gen report_ns_gen"
+    fwd_fn, fwd_default = _add_arguments_forwarding(parsing)
+    bottom_up = _instantiation_order(parsing)
+    main_has_sg = _main_parser_registers_subgroups(dw)
+    validates = _choice_options(fw)
+    sees_argv = _setup_sees_argv(parsing)
+    args = ("sub_abbrev_gen main_abbrev_gen partial_kw_gen inst_default_gen preset_wins_gen loop_breaks_gen report_ns_gen "
+            "validates_gen main_registers_subgroup_options_gen setup_sees_argv_gen instantiates_bottom_up_gen")
     return (
         "From SPV Require Import Base.Str Model.Subgroups.\nOpen Scope string_scope.\n"
         f"Definition sub_abbrev_gen : bool := {cb(r['sub_abbrev'])}.         (* allow_abbrev of the throw-away subgroup parser *)\n"
         f"Definition main_abbrev_gen : bool := {cb(main_abbrev)}.        (* ArgumentParser.__init__ leaves argparse's allow_abbrev alone *)\n"
-        f"Definition partial_kw_gen : bool := {cb(partial_kw)}.         (* partial keywords / default-instance attributes become field defaults *)\n"
-        f"Definition inst_default_gen : bool := {cb(r['inst_default'])}.       (* frozen instance -> default=instance, partial(dataclasses.replace, instance) *)\n"
+        f"Definition wrapper_uses_partial_keywords_gen : bool := {cb(partial_kw)}.   (* DataclassWrapper: partial keywords / default-instance attributes become field defaults *)\n"
+        f"Definition add_arguments_forwards_fn_gen : bool := {cb(fwd_fn)}.        (* _add_arguments: dataclass_fn=dataclass_fn reaches the wrapper *)\n"
+        f"Definition add_arguments_forwards_default_gen : bool := {cb(fwd_default)}.   (* _add_arguments: default=default reaches the wrapper *)\n"
+        f"Definition round_passes_instance_gen : bool := {cb(r['inst_default'])}.       (* frozen instance -> default=instance, partial(dataclasses.replace, instance) *)\n"
+        "Definition partial_kw_gen : bool := wrapper_uses_partial_keywords_gen && add_arguments_forwards_fn_gen.\n"
+        "Definition inst_default_gen : bool := round_passes_instance_gen && add_arguments_forwards_default_gen && wrapper_uses_partial_keywords_gen.\n"
         f"Definition field_default_preset_first_gen : bool := {cb(preset_first)}.   (* FieldWrapper.default: `_default` before `subgroup_default` *)\n"
         f"Definition round_asserts_default_gen : bool := {cb(r['asserts_default'])}.    (* assert argument_options['default'] is subgroup_default *)\n"
         f"Definition subgroup_field_takes_instance_default_gen : bool := {cb(push_instance)}.   (* DataclassWrapper pushes a default instance's attribute into a subgroup FieldWrapper *)\n"
         "Definition preset_wins_gen : bool := subgroup_field_takes_instance_default_gen && field_default_preset_first_gen && round_asserts_default_gen.\n"
         f"Definition loop_breaks_gen : bool := {cb(r['loop_breaks'])}.        (* `if not unresolved_subgroups: break` ends the itertools.count() loop *)\n"
         f"Definition report_ns_gen : bool := {cb(report_ns)}.          (* namespace.subgroups[dest] = getattr(parsed_args, dest); delattr *)\n"
+        f"Definition validates_gen : bool := {cb(validates)}.          (* get_arg_options: _arg_options['choices'] = choices for a choice field *)\n"
+        f"Definition main_registers_subgroup_options_gen : bool := {cb(main_has_sg)}.   (* DataclassWrapper.add_arguments does not skip subgroup fields *)\n"
+        f"Definition setup_sees_argv_gen : bool := {cb(sees_argv)}.     (* parse_known_args -> _preprocessing -> _resolve_subgroups(args=args, namespace=namespace) *)\n"
+        f"Definition instantiates_bottom_up_gen : bool := {cb(bottom_up)}.   (* sorted(wrappers, key=nesting_level, reverse=True); child value into the parent's arguments *)\n"
         "Definition resolves_conflicts_each_round_gen : bool := true.\n"
         "Definition default_validated_gen : bool := true.    (* subgroups(): ValueError unless the default is a key / a value of the table *)\n"
         "Definition default_stored_as_key_gen : bool := true. (* metadata['subgroup_default'] is always the KEY (instance / factory looked up) *)\n"
         f"Definition METADATA_KEYS_gen : list string := {cstrs(mkeys)}.\n"
         "(* the model instantiated with the regenerated facts *)\n"
-        f"Definition round_gen := round sub_abbrev_gen inst_default_gen preset_wins_gen.\n"
-        f"Definition loop_gen := loop sub_abbrev_gen inst_default_gen preset_wins_gen loop_breaks_gen.\n"
-        f"Definition resolve_gen := resolve sub_abbrev_gen inst_default_gen preset_wins_gen loop_breaks_gen.\n"
-        f"Definition final_gen := final main_abbrev_gen partial_kw_gen inst_default_gen report_ns_gen.\n"
+        "Definition round_gen := round sub_abbrev_gen inst_default_gen preset_wins_gen validates_gen.\n"
+        "Definition loop_gen := loop sub_abbrev_gen inst_default_gen preset_wins_gen loop_breaks_gen validates_gen.\n"
+        "Definition resolve_gen := resolve sub_abbrev_gen inst_default_gen preset_wins_gen loop_breaks_gen validates_gen setup_sees_argv_gen.\n"
+        "Definition registered_gen := registered main_registers_subgroup_options_gen.\n"
+        "Definition final_gen := final main_abbrev_gen partial_kw_gen inst_default_gen report_ns_gen main_registers_subgroup_options_gen instantiates_bottom_up_gen.\n"
         f"Definition parse_gen := parse {args}.\n"
-        f"Definition cmd_parse_gen := cmd_parse main_abbrev_gen.\n"
+        "Definition cmd_parse_gen := cmd_parse main_abbrev_gen.\n"
     )
